@@ -1,7 +1,7 @@
 //! lattice / semiring cases for the float-based weight types and the Boolean semiring, on a grid of values
 //! that includes incomparable pairs, equal elements, signed zeros and infinities
 use crate::CaseResult;
-use rsdd::util::semirings::{BBRing, BBSemiring, BooleanSemiring, ExpectedUtility, JoinSemilattice, MeetSemilattice, RationalSemiring, RealSemiring, Semiring};
+use rsdd::util::semirings::{Complex, BBRing, BBSemiring, BooleanSemiring, ExpectedUtility, JoinSemilattice, MeetSemilattice, RationalSemiring, RealSemiring, Semiring};
 use serde_json::{json, Value};
 
 fn f(v: &Value) -> f64 {
@@ -42,6 +42,26 @@ pub fn run(c: &Value) -> CaseResult {
             }
             Ok(())
         }
+        "lat_complex" => {
+            let g = |k: &str| Complex { re: f(&c[k][0]), im: f(&c[k][1]) };
+            let (a, b, d) = (g("a"), g("b"), g("c"));
+            let (one, zero) = (Complex::one(), Complex::zero());
+            let eq = |x: Complex, y: Complex| x.re == y.re && x.im == y.im;
+            // exact on every finite value: identities, annihilation, commutativity
+            chk("complex a+0 == a", eq(a + zero, a) && eq(zero + a, a))?;
+            chk("complex a*1 == a", eq(a * one, a) && eq(one * a, a))?;
+            chk("complex a*0 == 0", eq(a * zero, zero) && eq(zero * a, zero))?;
+            chk("complex + commutative", eq(a + b, b + a))?;
+            chk("complex * commutative", eq(a * b, b * a))?;
+            // small integers: everything is exact
+            if [a.re, a.im, b.re, b.im, d.re, d.im].iter().all(|x| x.fract() == 0.0 && x.abs() <= 8.0) {
+                chk("complex + associative", eq((a + b) + d, a + (b + d)))?;
+                chk("complex * associative", eq((a * b) * d, a * (b * d)))?;
+                chk("complex distributive", eq(a * (b + d), (a * b) + (a * d)))?;
+                chk("complex sub inverts add", eq((a - b) + b, a))?;
+            }
+            Ok(())
+        }
         "lat_rational" => {
             // the wrapped rational is private: values are the naturals reachable from one()/zero() by addition
             let nat = |n: u64| { let mut x = RationalSemiring::zero(); for _ in 0..n { x = x + RationalSemiring::one(); } x };
@@ -66,6 +86,8 @@ pub fn candidates(_seed: u64) -> Vec<Value> {
     let mut out = vec![];
     for a in [false, true] { for b in [false, true] { for c in [false, true] { out.push(json!({"case": "lat_bool", "a": a, "b": b, "c": c})); } } }
     for a in 0..5u64 { for b in 0..5u64 { for c in 0..4u64 { out.push(json!({"case": "lat_rational", "a": a, "b": b, "c": c})); } } }
+    let cv = vec![json!([0.0, 0.0]), json!([1.0, 0.0]), json!([0.0, 1.0]), json!([-1.0, 2.0]), json!([3.0, -4.0]), json!([9007199254740992.0, 1.0]), json!([1.0, 9007199254740992.0]), json!([-9007199254740992.0, 3.0]), json!([0.5, 0.25])];
+    for a in cv.iter() { for b in cv.iter() { for c in cv.iter().take(5) { out.push(json!({"case": "lat_complex", "a": a, "b": b, "c": c})); } } }
     let vals = vec![json!(0.0), json!("-0"), json!(0.25), json!(1.0), json!(2.0), json!(-3.0), json!(8.0), json!("inf"), json!("-inf")];
     for a in vals.iter() { for b in vals.iter() { for c in vals.iter().take(5) { out.push(json!({"case": "lat_real", "a": a, "b": b, "c": c})); } } }
     let pv = vec![json!([0.0, 0.0]), json!([0.0, 0.25]), json!([1.0, 2.0]), json!([2.0, 1.0]), json!([1.0, 1.0]), json!(["-0", 0.0]), json!([0.5, "inf"]), json!([-1.0, -1.0])];
